@@ -27,6 +27,7 @@ var panicBudget = map[string]int{
 	"gblsminsig.decodeCombinationIndex": 1,
 	"gblsminsig.sortRestForFinalizing$1": 1,
 	"gcrypto.NewSimpleCommonMessageSignatureProof": 1,
+	"gtxbuf.Buffer.Initialize":                     1, // API misuse: Initialize called twice
 	"gcrypto.Registry.Marshal": 1,
 	"gcrypto.Registry.Register": 1,
 	"gwatchdog.Watchdog.Monitor": 1,
